@@ -248,12 +248,13 @@ void orc_delivery(Delivery &d) {
         }
     // a one-shot subscription is gone once it delivered
     for (auto &e : d.evts) {
-        if (e.type != M_SRC_TYPE_PS || e.system || d.in_unstash || !e.ud) continue;
+        if (e.type != M_SRC_TYPE_PS || d.in_unstash || !e.ud) continue;   // (a system notification consumes a matching one-shot subscription like any message)
         Slot &s = W->slots[d.slot];
         for (auto it = s.subs.begin(); it != s.subs.end(); ++it)
             if (it->second.ud == e.ud && (it->second.flags & M_SRC_ONESHOT)) {
                 if (it->second.re_ok) regfree(&it->second.re);
                 s.oneshot_fired.push_back(e.ud);
+                s.c09_model.erase(std::make_tuple((int)M_SRC_TYPE_PS, (long)(sim::hash_str(it->second.topic.c_str()) & 0x7fffffffffffLL), 0L));
                 s.subs.erase(it);
                 break;
             }
